@@ -224,7 +224,9 @@ def _pick_origins(members, model, obs, used_sigs):
 
     def prio(o):
         p = progs[o[0]]
-        return ("X" in p["states"], p["blocking"], o[1], o[0])
+        # p["n"]: how often this programme was seen for its configuration (map iteration order can vary it): prefer
+        # the usual behaviour, it is the one a replay will most likely meet again
+        return ("X" in p["states"], p["blocking"], -p["n"], o[1], o[0])
 
     cands = [sorted(model["origins"][m], key=prio) for m in members]
     groups = sorted({progs[o[0]]["group"] for o in cands[0]})
@@ -268,7 +270,7 @@ def _run_replay(tool, spec, d, idx):
     path = os.path.join(d, "replay-%d.json" % idx)
     json.dump(spec, open(path, "w"))
     last = None
-    for attempt in range(4):
+    for attempt in range(6):
         try:
             p = subprocess.run([tool, "replay", "-spec", path], stdout=subprocess.PIPE, stderr=subprocess.PIPE, timeout=60)
         except subprocess.TimeoutExpired:
